@@ -1256,6 +1256,7 @@ func c12pColumns(r *Result) {
 
 func init() {
 	register("C12", func(r *Result, rng *rand.Rand, tier string) {
+		defer c12Timed("poly")()
 		nE, nT := 1000, 800
 		if tier == "thorough" {
 			nE, nT = 15000, 12000
